@@ -372,7 +372,17 @@ def setup(run):
         return (True, c) if c is not None else (False, "vector not timelike with margin")
 
     def dom_spacelike_to(call):
-        c = vec_domain(call.args[0] if call.args else call.kwargs.get("v"), 1.0)
+        v = call.args[0] if call.args else call.kwargs.get("v")
+        c = vec_domain(v, 1.0)
+        if c is not None:
+            # the library's own notion of "spacelike" is absolute: Minkowski
+            # square-norm above ERROR_THRESHOLD = 1e-8 (hyperbolic.spacelike).
+            # Whether a shorter vector is accepted depends on whether an earlier
+            # step happened to normalise the caller's array in place (benign
+            # change B-1 removes that side effect), so it is out of domain here.
+            a = np.asarray(v, dtype=float)
+            if np.any(rh.mink_sq(a) < 1e-6):
+                return False, "vector shorter than 100x the library's absolute spacelike threshold"
         return (True, c) if c is not None else (False, "vector not spacelike with margin")
 
     constructor(hyp.Point, "origin_to", dom_point_origin_to, "Point.origin_to")
@@ -921,7 +931,12 @@ def wl_origin(run, rng, idx):
     if n >= 1 and rad == "bulk":
         # spacelike vectors
         a = rng.uniform(-0.9, 0.9, size=tuple(shape) + (1,))
-        S = np.concatenate([a, rh.rand_sphere(rng, n, shape)], axis=-1) * lam
+        S0 = np.concatenate([a, rh.rand_sphere(rng, n, shape)], axis=-1)
+        S = S0 * lam
+        # (rows that the extreme scale class would push below the library's
+        # absolute spacelike threshold, with margin, keep a moderate scale)
+        short = rh.mink_sq(S) < 1e-5
+        S = np.where(short[..., None], S0 * np.sign(lam), S)
         if n >= 2 and idx % 3 == 0:
             from . import c15
             S = c15.rand_normals(rng, n, shape, "lightlike-kernel")
